@@ -18,6 +18,7 @@ PROP = Prop(
         Layer("random", strategy=random_cases, execute=make_execute("C06"), budget={"quick": 1200, "thorough": 60000}),
         Layer("sync-faults", cases=sync_cases, execute=make_sync_execute("C06")),
         Layer("trio", cases=trio_cases, execute=make_execute("C06")),
+        __import__("vf.props.real", fromlist=["layer_for"]).layer_for("C06", {"quick": 500, "thorough": 16000}),
     ],
     assumptions=ASSUME + ["'open' always means the simulated pipe (closing any TLS layer closes the pipe, as closing an SSL stream closes the socket)"],
     explanation="The enumerated layer is exhaustive over fault positions x kinds and cancellation points x styles for the listed base scenarios.",
